@@ -53,7 +53,7 @@ Definition chg_stage (l4 : list ascii) : option (list ascii) * list ascii :=
 Definition map_stage (l5 : list ascii) : option (option Z) :=
   match l5 with
   | ":"%char :: r6 =>
-      let '(d, rest) := take_digits 4 r6 in
+      let '(d, rest) := take_digits (List.length r6) r6 in
       match d, rest with
       | _ :: _, [] => Some (Some (int_of_digits d))
       | _, _ => None
@@ -210,12 +210,13 @@ Proof. intros Hs Hd. unfold chg_stage. rewrite Hs, Hd. reflexivity. Qed.
 
 Lemma map_stage_none : map_stage [] = Some None.
 Proof. reflexivity. Qed.
-Lemma map_stage_some d : forallb is_digit d = true -> (1 <= List.length d <= 4)%nat ->
+Lemma map_stage_some d : forallb is_digit d = true -> (1 <= List.length d)%nat ->
   map_stage (":"%char :: d) = Some (Some (int_of_digits d)).
 Proof.
-  intros Hd Hk. unfold map_stage. rewrite <- (app_nil_r d) at 1.
-  rewrite take_digits_all; [| exact Hd | lia | reflexivity].
-  destruct d; [cbn in Hk; lia | reflexivity].
+  intros Hd Hk. unfold map_stage.
+  assert (H : take_digits (List.length d) d = (d, [])).
+  { rewrite <- (app_nil_r d) at 2. apply take_digits_all; [exact Hd | lia | reflexivity]. }
+  rewrite H. destruct d; [cbn in Hk; lia | reflexivity].
 Qed.
 
 (* ------------------------------------------------------------------------------------------------ components *)
@@ -241,7 +242,7 @@ Inductive chg_comp : list ascii -> Z -> Prop :=
 | ChgSome c s : c <> 0 -> zget charge_str c = Some s -> chg_comp (list_ascii_of_string s) c.
 Inductive map_comp : list ascii -> option Z -> Prop :=
 | MapNone : map_comp [] None
-| MapSome d : forallb is_digit d = true -> (1 <= List.length d <= 4)%nat ->
+| MapSome d : forallb is_digit d = true -> (1 <= List.length d)%nat ->
               map_comp (":"%char :: d) (Some (int_of_digits d)).
 
 Definition parsed_of (symL : list ascii) (iso : option Z) (st : option bool) (h chg : Z) (mp : option Z) : parsed :=
@@ -413,7 +414,7 @@ Proof.
   apply andb_true_iff in H. destruct H as [H H0]. apply andb_true_iff in H. destruct H as [H H1].
   apply andb_true_iff in H. destruct H as [H H2].
   apply Z.eqb_eq in H0. rewrite <- H0. apply MapSome; [assumption|].
-  apply Nat.leb_le in H1. apply Nat.leb_le in H2. lia.
+  apply Nat.leb_le in H2. lia.
 Qed.
 
 (* hydrogen counts 0..4 as h_str writes them *)
@@ -625,7 +626,9 @@ Proof.
   exists e, p. repeat split; assumption.
 Qed.
 
-Lemma atom_map_limit : atom_parse "CH3:10000" = Err IncorrectSmiles /\ atom_parse "CH3:9999" = Ok (mkParsed 0 "C" None (Some 9999) 0 3 None).
+(* since fix 6e5bd93 the atom-map group takes any number of digits *)
+Lemma atom_map_long : atom_parse "CH3:10000" = Ok (mkParsed 0 "C" None (Some 10000) 0 3 None) /\
+                      atom_parse "CH3:123456789012" = Ok (mkParsed 0 "C" None (Some 123456789012) 0 3 None).
 Proof. split; vm_compute; reflexivity. Qed.
 
 (* non-vacuity: a bracket atom with every field set, written by the model and parsed back *)
